@@ -25,13 +25,16 @@ type IndexPos struct {
 
 // NewIndexReadSeeker initializes a ReadSeeker for indexes.
 func NewIndexReadSeeker(i Index, s Store) *IndexPos {
-	return &IndexPos{
-		Store:      s,
-		Index:      i,
-		Length:     i.Length(),
-		curChunkID: i.Chunks[0].ID,
-		nullChunk:  NewNullChunk(i.Index.ChunkSizeMax),
+	ip := &IndexPos{
+		Store:     s,
+		Index:     i,
+		Length:    i.Length(),
+		nullChunk: NewNullChunk(i.Index.ChunkSizeMax),
 	}
+	if len(i.Chunks) > 0 { // an empty blob has no chunks
+		ip.curChunkID = i.Chunks[0].ID
+	}
+	return ip
 }
 
 /* findOffset - Actually update our IndexPos for a new Index
@@ -51,6 +54,11 @@ func (ip *IndexPos) findOffset(newPos int64) (int64, error) {
 	delta = newPos - ip.pos
 	if delta == 0 {
 		return ip.pos, nil
+	}
+
+	// An empty blob has no chunk to position in, only position 0 is valid
+	if len(ip.Index.Chunks) == 0 {
+		return ip.pos, fmt.Errorf("seek in an empty blob, desired position is %v", newPos)
 	}
 
 	// Degenerate case: Seeking within current chunk
